@@ -39,6 +39,7 @@ BOUNDS = {
     "log sources": "category/product/service of filter and rule each absent or one of two values (all subset relations)",
     "rule lists": "by id, by name, both, 'any', 'ANY', empty list, unknown reference",
     "names/conditions": "rule detection name sets x 8 rule condition forms x filter detection name sets x 9 filter condition forms (see RULE_NAMES, FILTER_NAMES, RCONDS, FCONDS); 1 or 2 stacked filters; 3 draws of the internal prefix incl. one colliding with a rule detection name",
+    "thorough": "the names/conditions/stacking/draw space crossed with the 9 category relations (filter/rule category absent or one of two values) and 4 rule-list forms",
     "outside": "other names / condition shapes; filters on correlation rules (never applied by design); more than 2 stacked filters",
 }
 ASSUMPTIONS = [
@@ -182,6 +183,7 @@ def c11_filter(rs: int, fs: int, fc: int, fp: int, fsv: int, rc: int, rp: int, r
     pre: 0 <= draw < 3
     pre: P("MODE", 0) != 0 or (fc == 1 and fp == 0 and fsv == 0 and rc == 1 and rp == 1 and rsv == 0 and rf == 0)
     pre: P("MODE", 0) != 1 or (rs == 0 and fs == 0 and not stacked and draw == 0)
+    pre: P("MODE", 0) != 2 or (fp == 0 and fsv == 0 and rp == 1 and rsv == 0 and rf < 4)
     post: _
     """
     r, f = sel(rs, len(RULE_SETS)), sel(fs, len(FILTER_SETS))
@@ -216,6 +218,8 @@ OBLIGATIONS = (
     # applicability: log source relations x rule list forms
     + [Ob("c11_filter", {"MODE": 1, "RF": r}, 900) for r in range(8)]
     + [Ob("c11_logsource", {}, 300)]
+    # thorough: names / conditions / stacking / draws crossed with category relations and rule-list forms
+    + [Ob("c11_filter", {"MODE": 2, "RSLO": lo, "RSHI": lo + 1}, 2400, tier="thorough") for lo in range(len(RULE_SETS))]
 )
 
 SELFCHECKS = [
